@@ -295,7 +295,10 @@ pub fn recover(img: &DirImage, seed: u64, known_ids: &[Uuid], epilogue: bool) ->
     if !api.anomalies.is_empty() || !raw.anomalies.is_empty() {
         return Err(format!("inconsistent storage: {:?} {:?}", api.anomalies, raw.anomalies));
     }
-    if api.clients != raw.clients || api.versions != raw.versions {
+    let strip = |m: &BTreeMap<Uuid, (Uuid, Option<(Uuid, u64, i64, Vec<u8>)>)>| -> BTreeMap<Uuid, (Uuid, Option<(Uuid, u64, Vec<u8>)>)> {
+        m.iter().map(|(k, (l, s))| (*k, (*l, s.as_ref().map(|(v, n, _, b)| (*v, *n, b.clone()))))).collect()
+    };
+    if strip(&api.clients) != strip(&raw.clients) || api.versions != raw.versions {
         return Err("raw tables and API view disagree after recovery (rows with ids the history never produced?)".into());
     }
     let mut out = Recovered { clients: BTreeMap::new() };
